@@ -354,3 +354,32 @@ func TestMeta(t *testing.T) {
 	b, _ := json.Marshal(map[string]any{"name": sc.Name, "real": sc.Real, "stub": sc.Stub, "rule": sc.Rule})
 	fmt.Println("META " + string(b))
 }
+
+// TestRaceLeg is leg B of C13 (built with -race by the driver): seeded
+// workloads free-running at the GOMAXPROCS given, for a number of workloads or
+// until the time budget is used. Prints RACELEG lines; the race detector itself
+// reports data races on stderr and makes the process exit with status 66.
+func TestRaceLeg(t *testing.T) {
+	if os.Getenv("VERIF_RACE") == "" {
+		t.Skip("not invoked by the driver")
+	}
+	procs := int(envU("VERIF_RACE_PROCS", 4))
+	runtime.GOMAXPROCS(procs)
+	seed := envU("VERIF_SEED", 1)
+	n := envU("VERIF_RACE_RUNS", 200)
+	from := envU("VERIF_RACE_FROM", 0)
+	budget := time.Duration(envU("VERIF_RACE_SECONDS", 8)) * time.Second
+	start := time.Now()
+	done, tasks, ops := uint64(0), 0, 0
+	for i := from; i < from+n && time.Since(start) < budget; i++ {
+		m, nt, no := scen.RaceWorkload(seed, i)
+		done++
+		tasks += nt
+		ops += no
+		if m != "" {
+			fmt.Printf("RACELEG MISMATCH procs=%d workload=%d %s\n", procs, i, m)
+			break
+		}
+	}
+	fmt.Printf("RACELEG DONE procs=%d workloads=%d tasks=%d ops=%d wall=%.1fs\n", procs, done, tasks, ops, time.Since(start).Seconds())
+}
